@@ -79,10 +79,10 @@ fn c30_composite_key_total_order() {
 
 //@ props: C30
 //@ tier: quick
-//@ funcs: query::aggs::CompositeKey::cmp, query::aggs::CompositeKeyPart::cmp
-//@ symbolic: two keys whose parts mix kinds at the same position (terms value against histogram value), any contents
+//@ funcs: query::aggs::CompositeKey::cmp, CompositeKey::partial_cmp, query::aggs::CompositeKeyPart::cmp
+//@ symbolic: two keys whose parts mix kinds at the same position (terms value against histogram value) or differ in length, any contents
 //@ bounds: 2 keys x 1..2 parts
-//@ oracle: a terms part sorts before a histogram part; a key that is a proper prefix of another sorts first; still antisymmetric
+//@ oracle: even for keys of different shape (which one source list never produces) the order stays antisymmetric, never reports Equal for different keys, and the operators agree with cmp - which of the two sorts first is a convention and not asserted
 #[kani::proof]
 #[kani::unwind(4)]
 fn c30_composite_key_mixed_kinds() {
@@ -92,14 +92,16 @@ fn c30_composite_key_mixed_kinds() {
   let b = CompositeKey {
     parts: vec![any_part(true)],
   };
-  assert!(a.cmp(&b) == Ordering::Less && b.cmp(&a) == Ordering::Greater, "C30: Str < F64 convention broken");
+  let ab = a.cmp(&b);
+  assert!(ab != Ordering::Equal && b.cmp(&a) == ab.reverse(), "C30: keys of different kinds must be ordered consistently");
+  assert!(a.partial_cmp(&b) == Some(ab), "C30: operators disagree with cmp for mixed-kind keys");
   let long = CompositeKey {
     parts: vec![any_part(false), any_part(true)],
   };
-  if part_eq(&a.parts[0], &long.parts[0]) {
-    assert!(a.cmp(&long) == Ordering::Less && long.cmp(&a) == Ordering::Greater, "C30: prefix key must sort first");
-  }
+  let al = a.cmp(&long);
+  assert!(al != Ordering::Equal && long.cmp(&a) == al.reverse(), "C30: a key and its proper extension must be ordered consistently");
   kani::cover!(part_eq(&a.parts[0], &long.parts[0]), "prefix case reached");
+  kani::cover!(ab == Ordering::Less || ab == Ordering::Greater, "mixed kinds compared");
   std::mem::forget(a);
   std::mem::forget(b);
   std::mem::forget(long);
